@@ -120,8 +120,11 @@ Definition can_start_expr (t : token) : bool :=
 
 Definition parser := list token -> outcome (fexpr * list token).
 
+Definition is_fix (s : string) (t : token) : bool := match t with TFix x => String.eqb x s | _ => false end.
+Definition next_is (s : string) (ts : list token) : bool := match ts with t :: _ => is_fix s t | [] => false end.
+
 Definition expect (s : string) (ts : list token) : outcome (list token) :=
-  match ts with TFix x :: r => if String.eqb x s then Ok r else Err E_PARSE | _ => Err E_PARSE end.
+  match ts with t :: r => if is_fix s t then Ok r else Err E_PARSE | [] => Err E_PARSE end.
 
 (* RawInsIdent: ins_ followed by a canonically formatted u16 *)
 Definition parse_ins (s : string) : outcome Z :=
@@ -136,18 +139,24 @@ Definition parse_ins (s : string) : outcome Z :=
 
 (* Var: VarSigil VarName *)
 Definition pvar (ts : list token) : outcome (fvar * list token) :=
-  let (sg, r) := match ts with
-                 | TFix "$" :: r => (Some SgI, r)
-                 | TFix "%" :: r => (Some SgF, r)
-                 | _ => (None, ts)
-                 end in
+  let (sg, r) := if next_is "$" ts then (Some SgI, tl ts) else if next_is "%" ts then (Some SgF, tl ts) else (None, ts) in
   match r with
-  | TFix "REG" :: TFix "[" :: TFix "-" :: TInt s :: TFix "]" :: r' =>
-      do x <- parse_int_text s; Ok (VReg sg (wrap32 (x * -1)), r')
-  | TFix "REG" :: TFix "[" :: TInt s :: TFix "]" :: r' =>
-      do x <- parse_int_text s; Ok (VReg sg x, r')
-  | t :: r' => match ident_of t with Some n => Ok (VNamed sg n, r') | None => Err E_PARSE end
   | [] => Err E_PARSE
+  | t :: r1 =>
+      if is_fix "REG" t then
+        (* "REG" "[" OptionalMinus LitIntUnsigned "]" *)
+        if next_is "[" r1 then
+          let r2 := tl r1 in
+          let (neg, r3) := if next_is "-" r2 then (true, tl r2) else (false, r2) in
+          match r3 with
+          | TInt s :: r4 =>
+              if next_is "]" r4 then
+                do x <- parse_int_text s; Ok (VReg sg (if neg then wrap32 (x * -1) else x), tl r4)
+              else Err E_PARSE
+          | _ => Err E_PARSE
+          end
+        else Err E_PARSE
+      else match ident_of t with Some n => Ok (VNamed sg n, r1) | None => Err E_PARSE end
   end.
 
 Section Parse.
@@ -161,27 +170,27 @@ Fixpoint pargs (n : nat) (ts : list token) (acc : list (option string * fexpr)) 
   match n with
   | O => OutOfFuel
   | S n' =>
-      match ts with
-      | TFix ")" :: r => Ok (rev acc, r)
-      | _ =>
-          do item <-
-            match ts with
-            | TFix "@" :: k :: TFix "=" :: r =>
-                match ident_of k with
-                | Some kind =>
-                    do p <- pe r; let '(v, r') := p in
-                    if mem_str kind pseudo_kinds then Ok (Some kind, v, r') else Err E_PARSE
-                | None => Err E_PARSE
-                end
-            | _ => do p <- pe ts; let '(v, r') := p in Ok (None, v, r')
-            end;
-          let '(k, v, r) := item in
-          match r with
-          | TFix "," :: r' => pargs n' r' ((k, v) :: acc)
-          | TFix ")" :: r' => Ok (rev ((k, v) :: acc), r')
-          | _ => Err E_PARSE
-          end
-      end
+      if next_is ")" ts then Ok (rev acc, tl ts)
+      else
+        do item <-
+          (if next_is "@" ts then
+             match tl ts with
+             | k :: r1 =>
+                 if next_is "=" r1 then
+                   match ident_of k with
+                   | Some kind =>
+                       do p <- pe (tl r1); let '(v, r') := p in
+                       if mem_str kind pseudo_kinds then Ok (Some kind, v, r') else Err E_PARSE
+                   | None => Err E_PARSE
+                   end
+                 else do p <- pe ts; let '(v, r') := p in Ok (None, v, r')
+             | [] => do p <- pe ts; let '(v, r') := p in Ok (None, v, r')
+             end
+           else do p <- pe ts; let '(v, r') := p in Ok (None, v, r'));
+        let '(k, v, r) := item in
+        if next_is "," r then pargs n' (tl r) ((k, v) :: acc)
+        else if next_is ")" r then Ok (rev ((k, v) :: acc), tl r)
+        else Err E_PARSE
   end.
 
 (* ExprCallParenArgsWithPseudos: the pseudo-args must come first *)
@@ -200,51 +209,58 @@ Definition pcall (n : cname) (ts : list token) : outcome (fexpr * list token) :=
 
 (* what may follow a Var in ExprTerm *)
 Definition after_var (v : fvar) (r : list token) : outcome (fexpr * list token) :=
-  match r with
-  | TFix "++" :: r' => Ok (FXcr false true v, r')
-  | TFix "--" :: r' => Ok (FXcr false false v, r')
-  | TFix "[" :: _ => Err E_PARSE               (* "array indexing is not a thing, sorry" *)
-  | _ => Ok (FVar v, r)
-  end.
+  if next_is "++" r then Ok (FXcr false true v, tl r)
+  else if next_is "--" r then Ok (FXcr false false v, tl r)
+  else if next_is "[" r then Err E_PARSE         (* "array indexing is not a thing, sorry" *)
+  else Ok (FVar v, r).
 
 Definition pterm (ts : list token) : outcome (fexpr * list token) :=
   match ts with
   | [] => Err E_PARSE
-  | TInt s :: r => do v <- parse_int_text s; Ok (FLitI v (IF true RDec), r)
-  | TFloat s :: r => Ok (FLitF (pf s), r)
-  | TRad s :: r => Ok (FLitF (pf s), r)
-  | TStr s :: r => do x <- parse_string_literal s; Ok (FLitS x, r)
-  | TDiff _ :: _ => Err E_PARSE
-  | TInstr s :: r =>
-      match r with
-      | TFix "(" :: r' => do op <- parse_ins s; pcall (CIns op) r'
-      | _ => Err E_PARSE
-      end
-  | TFix "(" :: r => do p <- pe r; let '(e, r') := p in do r'' <- expect ")" r'; Ok (e, r'')
-  | TFix "++" :: r => do p <- pvar r; let '(v, r') := p in Ok (FXcr true true v, r')
-  | TFix "--" :: r => do p <- pvar r; let '(v, r') := p in Ok (FXcr true false v, r')
   | t :: r =>
       let as_var := do p <- pvar ts; let '(v, r') := p in after_var v r' in
-      match t, r with
-      | TFix s, TFix "(" :: r' =>
-          match assoc_str s func_unops with
-          | Some op => do p <- pe r'; let '(e, r2) := p in do r3 <- expect ")" r2; Ok (FUn op e, r3)
-          | None =>
-              if mem_str s label_props then
-                match r' with
-                | l :: TFix ")" :: r2 => match ident_of l with Some lab => Ok (FLabelProp s lab, r2) | None => Err E_PARSE end
-                | _ => Err E_PARSE
+      match t with
+      | TInt s => do v <- parse_int_text s; Ok (FLitI v (IF true RDec), r)
+      | TFloat s => Ok (FLitF (pf s), r)
+      | TRad s => Ok (FLitF (pf s), r)
+      | TStr s => do x <- parse_string_literal s; Ok (FLitS x, r)
+      | TDiff _ => Err E_PARSE
+      | TInstr s => if next_is "(" r then do op <- parse_ins s; pcall (CIns op) (tl r) else Err E_PARSE
+      | TIdent n =>
+          if next_is "(" r then pcall (CNormal n) (tl r)
+          else if next_is "." r then
+            match tl r with
+            | b :: r2 => match ident_of b with Some b' => Ok (FEnum n b', r2) | None => Err E_PARSE end
+            | [] => Err E_PARSE
+            end
+          else as_var
+      | TFix s =>
+          if String.eqb s "(" then do p <- pe r; let '(e, r') := p in do r'' <- expect ")" r'; Ok (e, r'')
+          else if String.eqb s "++" then do p <- pvar r; let '(v, r') := p in Ok (FXcr true true v, r')
+          else if String.eqb s "--" then do p <- pvar r; let '(v, r') := p in Ok (FXcr true false v, r')
+          else if next_is "(" r then
+            match assoc_str s func_unops with
+            | Some op => do p <- pe (tl r); let '(e, r2) := p in do r3 <- expect ")" r2; Ok (FUn op e, r3)
+            | None =>
+                if mem_str s label_props then
+                  match tl r with
+                  | l :: r1 => if next_is ")" r1
+                               then match ident_of l with Some lab => Ok (FLabelProp s lab, tl r1) | None => Err E_PARSE end
+                               else Err E_PARSE
+                  | [] => Err E_PARSE
+                  end
+                else match ident_of t with Some n => pcall (CNormal n) (tl r) | None => Err E_PARSE end
+            end
+          else if next_is "." r then
+            match ident_of t with
+            | Some a =>
+                match tl r with
+                | b :: r2 => match ident_of b with Some b' => Ok (FEnum a b', r2) | None => Err E_PARSE end
+                | [] => Err E_PARSE
                 end
-              else match ident_of t with Some n => pcall (CNormal n) r' | None => Err E_PARSE end
-          end
-      | TIdent n, TFix "(" :: r' => pcall (CNormal n) r'
-      | _, TFix "." :: r' =>
-          match ident_of t, r' with
-          | Some a, b :: r2 => match ident_of b with Some b' => Ok (FEnum a b', r2) | None => Err E_PARSE end
-          | Some _, [] => Err E_PARSE
-          | None, _ => as_var
-          end
-      | _, _ => as_var
+            | None => as_var
+            end
+          else as_var
       end
   end.
 
@@ -291,16 +307,15 @@ Fixpoint diff_loop (nc : parser) (m : nat) (acc : list (option fexpr)) (ts : lis
   match m with
   | O => OutOfFuel
   | S m' =>
-      match ts with
-      | TFix ":" :: r =>
-          match r with
-          | t :: _ =>
-              if can_start_expr t then do p <- nc r; let '(x, r') := p in diff_loop nc m' (Some x :: acc) r'
-              else diff_loop nc m' (None :: acc) r
-          | [] => diff_loop nc m' (None :: acc) r
-          end
-      | _ => Ok (FDiff (rev acc), ts)
-      end
+      if next_is ":" ts then
+        let r := tl ts in
+        match r with
+        | t :: _ =>
+            if can_start_expr t then do p <- nc r; let '(x, r') := p in diff_loop nc m' (Some x :: acc) r'
+            else diff_loop nc m' (None :: acc) r
+        | [] => diff_loop nc m' (None :: acc) r
+        end
+      else Ok (FDiff (rev acc), ts)
   end.
 
 Fixpoint pexpr (n : nat) (ts : list token) : outcome (fexpr * list token) :=
@@ -308,21 +323,17 @@ Fixpoint pexpr (n : nat) (ts : list token) : outcome (fexpr * list token) :=
   | O => OutOfFuel
   | S n' =>
       do p <- nocolon (pexpr n') ts; let '(a, r) := p in
-      match r with
-      | TFix "?" :: r1 => tern_rest (trhs n') a r1
-      | TFix ":" :: _ => diff_loop (nocolon (pexpr n')) (S (List.length r)) [Some a] r
-      | _ => Ok (a, r)
-      end
+      if next_is "?" r then tern_rest (trhs n') a (tl r)
+      else if next_is ":" r then diff_loop (nocolon (pexpr n')) (S (List.length r)) [Some a] r
+      else Ok (a, r)
   end
 with trhs (n : nat) (ts : list token) : outcome (fexpr * list token) :=
   match n with
   | O => OutOfFuel
   | S n' =>
       do p <- nocolon (pexpr n') ts; let '(x, r) := p in
-      match r with
-      | TFix "?" :: r1 => tern_rest (trhs n') x r1
-      | _ => Ok (x, r)
-      end
+      if next_is "?" r then tern_rest (trhs n') x (tl r)
+      else Ok (x, r)
   end.
 
 Definition parse_tokens (ts : list token) : outcome fexpr :=
